@@ -191,6 +191,12 @@ type c08case struct {
 	Expect string    `json:"expect,omitempty"` // "", 4xx, 404
 	Why    string    `json:"why,omitempty"`
 	Model  *modelReq `json:"model,omitempty"`
+	Repeat int       `json:"repeat,omitempty"` // k-th repetition of the same request on the same server
+}
+
+func queryEscape(v string) string {
+	r := strings.NewReplacer("%", "%25", "&", "%26", "+", "%2B", " ", "%20", "#", "%23", ",", "%2C", "{", "%7B", "}", "%7D", "[", "%5B", "]", "%5D", "=", "%3D")
+	return r.Replace(v)
 }
 
 var safePath = regexp.MustCompile(`^[A-Za-z0-9_\-./,:{}\[\]=*+$]*$`)
@@ -669,6 +675,48 @@ func gen(c *lib.Ctx, rng *rand.Rand) []c08case {
 	for _, s := range special {
 		add(liveCase("special", "/livesim2/"+s.parts+"/"+s.tail, s.now, s.exp, s.why))
 	}
+	// every refused request again, three times in a row on ONE server (the sequential worker): a
+	// refusal must not depend on what the server has seen before; for parameters that /urlgen/create
+	// also parses, that page sees the value first
+	urlgenKeys := map[string]string{"statuscode": "statuscode", "traffic": "traffic", "annexI": "annexI", "periods": "periods", "snr": "snr", "ato": "ato", "chunkdur": "chunkdur", "timesubsdur": "timesubsdur", "stoprel": "stoprel", "tsbd": "tsbd"}
+	seenRepeat := map[string]bool{}
+	addRepeat := func(parts, tail, now, exp, why string, force bool) {
+		if (exp != "4xx" && !force) || seenRepeat[parts+"|"+tail] {
+			return
+		}
+		seenRepeat[parts+"|"+tail] = true
+		for _, p := range strings.Split(parts, "/") {
+			if k, v, ok := strings.Cut(p, "_"); ok && urlgenKeys[k] != "" {
+				cs = append(cs, c08case{Group: "repeat:urlgen-first", Req: c08req{Kind: "routerseq", Method: "GET",
+					URL: "/urlgen/create?asset=testpic_2s&mpd=Manifest.mpd&stl=nr&" + urlgenKeys[k] + "=" + queryEscape(v)}})
+				c.Count("repeat:urlgen-first")
+			}
+		}
+		for k := 0; k < 3; k++ {
+			x := liveCase("repeat", "/livesim2/"+parts+"/"+tail, now, exp, why)
+			x.Req.Kind = "liveseq"
+			x.Repeat = k
+			add(x)
+		}
+	}
+	for _, s := range special {
+		addRepeat(s.parts, s.tail, s.now, s.exp, s.why, false)
+		// the same refused configuration on a media segment (no status expectation: the parameter may
+		// not be used there; the answers must agree with each other and with the model)
+		if strings.HasSuffix(s.tail, ".mpd") && s.exp == "4xx" {
+			addRepeat(s.parts, "testpic_2s/V300/45.m4s", "100000", "", "", true)
+		}
+	}
+	for _, k := range keys {
+		for _, v := range []string{"x", "", "1e30", "9223372036854775808", "[{cycle:0,rsq:0,code:404}]", "[{rsq:0,code:404}]", "[{cycle:30,rsq:0,code:1}]", "[{cycle:30,rsq:0,code:1000}]", "[{cycle:30,rsq:-1,code:404}]"} {
+			if strings.HasPrefix(v, "[") && k != "statuscode" {
+				continue
+			}
+			if bad, why := malformed(k, v, "video"); bad || k == "statuscode" {
+				addRepeat(k+"_"+v, "testpic_2s/V300/45.m4s", "100000", "4xx", k+"_"+v+": "+why, false)
+			}
+		}
+	}
 	// 4. segment-name shapes
 	shapes := []struct{ parts, tail, now, exp, why string }{
 		{"", "testpic_2s/V300/0.m4s", "100000", "", ""},
@@ -817,6 +865,31 @@ func gen(c *lib.Ctx, rng *rand.Rand) []c08case {
 		"/patch/", "/patch/x", "/patch/livesim2", "/patch/livesim2/testpic_2s/Manifest.mpp?publishTime=9999-99-99T00:00:00Z",
 	} {
 		get("patch", u, "", "", nil)
+	}
+	// the /patch route with every kind of path and configuration family the /livesim2 route gets
+	// (only .mpp paths are patch requests; everything else must be refused, not forwarded)
+	{
+		tails := []string{"testpic_2s/V300/45.m4s", "testpic_2s/V300/95.m4s", "testpic_2s/A48/45.m4s", "testpic_2s/V300/init.mp4",
+			"testpic_2s/thumbs/45.jpg", "testpic_2s/timestpp-en/45.m4s", "testpic_2s/imsc1_txt_sv/45.m4s", "testpic_2s/Manifest.mpd",
+			"testpic_2s/Manifest.mpp", "testpic_2s/Manifest_thumbs.mpp", "testpic_2s/Manifest.xyz", "testpic_2s/V300/45.cmfv", "testpic_2s/V300/45", "testpic_2s", "nosuch/V300/45.m4s",
+			"testpic_8s/V300/11.m4s", "testpic_2s/bu0/V300/45.m4s"}
+		cfgs := []string{"", "chunkdur_1/", "ato_1/chunkdur_0.5/", "ato_inf/chunkdur_1/", "drm_foo/", "eccp_cenc/", "eccp_cbcs/segtimeline_1/", "segtimeline_1/patch_60/",
+			"segtimelinenr_1/patch_60/", "patch_60/periods_60/", "traffic_u10/", "traffic_d10/", "statuscode_[{cycle:8,rsq:1,code:404}]/", "timesubsstpp_en/", "timesubswvtt_en/segtimeline_1/",
+			"annexI_a=b/", "scte35_2/", "start_90/stop_95/", "timeoffset_-10/", "snr_10/", "tsbd_10/mup_2/"}
+		for ci, cf := range cfgs {
+			for ti, tl := range tails {
+				if !c.Thorough() && ci > 2 && (ci+ti)%4 != 0 {
+					continue
+				}
+				for _, q := range []string{"publishTime=1970-01-01T00:03:20Z&nowMS=210000", "nowMS=210000"} {
+					exp, why := "", ""
+					if !strings.HasSuffix(tl, ".mpp") {
+						exp, why = "4xx", "no patch path"
+					}
+					get("patch-paths", "/patch/livesim2/"+cf+tl+"?"+q, exp, why, nil)
+				}
+			}
+		}
 	}
 	// licence requests
 	kidOK := append([]byte{0x28, 0x80, 0xfe}, []byte{1, 2, 3, 4, 5, 6, 7, 8, 9, 10, 11, 12, 13}...)
@@ -979,6 +1052,46 @@ func genReceiver(c *lib.Ctx, rng *rand.Rand) []c08case {
 				add("recv:wrap-back", m, base+"/video/4.cmfv", b, nil)
 			}
 		}
+	}
+	// 64-bit box sizes (32-bit size field 1, the size follows the box type): every small value incl. 0,
+	// as first box, after a good box, and with payload behind it
+	{
+		base := newCh()
+		large := func(typ string, size64 uint64, n int) []byte {
+			b := make([]byte, 16+n)
+			binary.BigEndian.PutUint32(b, 1)
+			copy(b[4:], typ)
+			binary.BigEndian.PutUint64(b[8:], size64)
+			return b
+		}
+		sizes64 := []uint64{0, 1, 2, 7, 8, 9, 15, 16, 17, 24, 1 << 32, 1<<32 - 16, 1 << 63, 1<<64 - 1}
+		k := 0
+		for _, sz := range sizes64 {
+			for _, typ := range []string{"mdat", "free", "moof"} {
+				if !c.Thorough() && typ == "moof" && sz > 24 {
+					continue
+				}
+				for pos := 0; pos < 3; pos++ {
+					var b []byte
+					switch pos {
+					case 0:
+						b = large(typ, sz, 0)
+					case 1:
+						b = append(rawbox(8, "free", nil), large(typ, sz, 4)...)
+					case 2:
+						b = append(append([]byte{}, seg0[:24]...), large(typ, sz, 8)...)
+					}
+					m := "PUT"
+					if k%2 == 1 {
+						m = "POST"
+					}
+					k++
+					add("recv:largesize", m, base+"/video/6.cmfv", b, nil)
+				}
+			}
+		}
+		add("recv:largesize", "PUT", base+"/video/6.cmfv", []byte{0, 0, 0, 1, 'm', 'd', 'a', 't'}, nil)
+		add("recv:largesize", "PUT", base+"/video/6.cmfv", []byte{0, 0, 0, 1, 'm', 'd', 'a', 't', 0, 0, 0}, nil)
 	}
 	// size fields of 2^31 and 2^32-1: the chunk parser allocates that much before it reads (seconds
 	// of wall time and gigabytes per request), so only the thorough tier sends them
@@ -1147,7 +1260,7 @@ func runC08(c *lib.Ctx) error {
 	// requests are independent and are spread over several workers (hangs then overlap)
 	var recvIdx, otherIdx []int
 	for i, cs := range cases {
-		if cs.Req.Kind == "recv" || cs.Req.Kind == "apiseq" {
+		if cs.Req.Kind == "recv" || cs.Req.Kind == "apiseq" || cs.Req.Kind == "liveseq" || cs.Req.Kind == "routerseq" {
 			recvIdx = append(recvIdx, i)
 		} else {
 			otherIdx = append(otherIdx, i)
@@ -1207,6 +1320,14 @@ func runC08(c *lib.Ctx) error {
 		}
 		if i%97 == 0 {
 			c.Sample(map[string]any{"request": cs.Req.Method + " " + cs.Req.URL, "class": classOf(obs[i])})
+		}
+	}
+	// identical requests to one server must get the same class
+	for i, cs := range cases {
+		if cs.Repeat > 0 && classOf(obs[i]) != classOf(obs[i-cs.Repeat]) {
+			c.Fail(strconv.Itoa(i), "repeat:"+classOf(obs[i-cs.Repeat])+"-then-"+classOf(obs[i]),
+				fmt.Sprintf("%s %s: request %d of the same request to the same server was answered %s, the first one %s", cs.Req.Method, cs.Req.URL, cs.Repeat+1, classOf(obs[i]), classOf(obs[i-cs.Repeat])),
+				map[string]any{"req": cs.Req, "group": cs.Group, "expect": cs.Expect, "why": cs.Why, "model": cs.Model, "repeat": cs.Repeat})
 		}
 	}
 	c.Res.Evaluations = len(cases)
